@@ -872,3 +872,4 @@ UNITS = [
 ]
 from props.c19_ext2 import UNITS as _U2; UNITS = UNITS + _U2
 from props.c19_ext3 import UNITS as _U3; UNITS = UNITS + _U3
+from props.c19_ext5 import UNITS as _U5; UNITS = UNITS + _U5
